@@ -3,9 +3,8 @@ CONSTANTS
   Inst = {1, 2}
   Grams = {1, 2}
   Audios = {"a1", "a2"}
-  Deviations <- NoDev
+  Deviations <- DevBeams
   Throttling <- Thr
-  MaxOps = 7
-ACTION_CONSTRAINT DumpEdge
-VIEW TourView
+  MaxOps = 9
+INVARIANT FunctionalDependency
 CHECK_DEADLOCK FALSE
